@@ -1,4 +1,5 @@
 ---- MODULE MC_TraceDetector ----
 EXTENDS TraceDetector
 MC_Cluster == [n \in Node |-> "c"]
+MC_Addr == [n \in Node |-> n]
 ====
